@@ -200,7 +200,74 @@ Definition ires_close (exact : bool) (sc : Q) (m : ires) (o : vres) (j : nat) : 
   | _, _ => false
   end.
 
-(** [fs]: per-pull conditioning factors (see [conds]) *)
+(* ------------------------------------------------------------------------ *)
+(** Missing values (a NaN cell or a masked cell of a gridded payload).  Point-wise, numpy's arithmetic
+    makes a result cell missing iff a missing operand takes part, whatever its weight
+    ([0.0 * nan = nan], [0.0 * masked = masked]).  In the loop of [_interpolate] both end values of
+    every interval that is neither skipped ([prev_time >= t_new]) nor behind the [break] take part.
+    [miss_loop] mirrors [integ_loop] on the flags "cell is missing in this publication". *)
+Definition mbuf := list (Z * bool).
+
+Fixpoint miss_loop (p0 p1 : Z) (t_old : Z) (m_old : bool) (rest : mbuf) (acc : bool) : bool :=
+  match rest with
+  | [] => acc
+  | (t_new, m_new) :: r =>
+      if t_new <=? p0 then miss_loop p0 p1 t_new m_new r acc
+      else if p1 <=? t_old then acc
+      else miss_loop p0 p1 t_new m_new r (acc || m_old || m_new)
+  end.
+
+Definition missing_i (mb : mbuf) (prev time : Z) : bool :=
+  match mb with
+  | [] => false
+  | (t0, m0) :: r =>
+      let initial := match r with [] => true | _ => time <=? t0 end in
+      if initial then m0 else miss_loop prev time t0 m0 r false
+  end.
+
+Fixpoint clear_cached_b (time : Z) (l : mbuf) : mbuf :=
+  match l with
+  | e0 :: r =>
+      match r with
+      | (t1, _) :: _ => if t1 <=? time then clear_cached_b time r else l
+      | [] => l
+      end
+  | [] => l
+  end.
+
+(** per pull: is the delivered cell missing?  The flag buffer follows the value model's buffer
+    (same pushes, eviction at the same successful pulls); [fl] = the ops with the cell's 0/1
+    missing flag as payload ([TimeInterp.proj_mask]). *)
+Fixpoint mrun (c : cfg) (s : istate) (mb : mbuf) (ops fl : list op) : list bool :=
+  match ops, fl with
+  | Push t v :: r, Push _ f :: fr =>
+      mrun c (source_updated_i s t v) (mb ++ [(t, negb (Qeq_bool f 0))]) r fr
+  | Pull t :: r, Pull _ :: fr =>
+      let '(s', x) := get_data_i true c s t in
+      match x, i_prev s with
+      | IOk _, Some p => missing_i mb p t :: mrun c s' (clear_cached_b p mb) r fr
+      | _, _ => false :: mrun c s' mb r fr
+      end
+  | _, _ => []
+  end.
+
+Definition ires_close_m (exact : bool) (sc : Q) (m : ires) (k : bool) (o : vres) (j : nat) : bool :=
+  match m, o with
+  | IOk _, VOk _ => negb k && ires_close exact sc m o j
+  | IOk _, VOkM vs ms => Bool.eqb k (nth j ms false) && (k || ires_close exact sc m (VOk vs) j)
+  | _, _ => ires_close exact sc m o j
+  end.
+
+(** [fs]: per-pull conditioning factors (see [conds]); [ks]: per-pull missing flags (see [mrun]) *)
+Fixpoint all_close_im (exact : bool) (sc : Q) (ms : list ires) (ks : list bool) (os : list vres)
+         (fs : list Q) (j : nat) : bool :=
+  match ms, ks, os, fs with
+  | [], [], [], [] => true
+  | m :: mr, k :: kr, o :: or, f :: fr =>
+      ires_close_m exact (sc * f)%Q m k o j && all_close_im exact sc mr kr or fr j
+  | _, _, _, _ => false
+  end.
+
 Fixpoint all_close_i (exact : bool) (sc : Q) (ms : list ires) (os : list vres) (fs : list Q) (j : nat) : bool :=
   match ms, os, fs with
   | [], [], [] => true
@@ -223,8 +290,10 @@ Record c12_case : Type := mk_case12 {
   c12_cfg : cfg; c12_n : nat; c12_exact : bool; c12_ops : list vop }.
 Definition c12_obs : Type := list vres.
 
-Definition c12_model (c : c12_case) : list (list ires) :=
-  map (fun j => run_i true (c12_cfg c) init_i (map (proj_op j) (c12_ops c))) (seq 0 (c12_n c)).
+Definition c12_model (c : c12_case) : list (list ires * list bool) :=
+  map (fun j => (run_i true (c12_cfg c) init_i (map (proj_op j) (c12_ops c)),
+                 mrun (c12_cfg c) init_i [] (map (proj_op j) (c12_ops c)) (map (proj_mask j) (c12_ops c))))
+      (seq 0 (c12_n c)).
 
 (** scale of a result: max |v| times the largest factor a result can carry (1 for averages and
     initial values, the number of intervals for absolute sums, the time span for per-time sums) *)
@@ -255,7 +324,8 @@ Definition c12_check (x : c12_case * c12_obs) : bool :=
   Nat.ltb 0 (c12_n c) && forallb (vop_ok (c12_n c)) (c12_ops c) && forallb (vres_ok (c12_n c)) o &&
   forallb (fun j =>
              let ops := map (proj_op j) (c12_ops c) in
-             all_close_i (c12_exact c) (c12_scale (c12_cfg c) ops)
-                         (run_i true (c12_cfg c) init_i ops) o
-                         (conds (c12_cfg c) init_i ops (span_secs ops)) j)
+             all_close_im (c12_exact c) (c12_scale (c12_cfg c) ops)
+                          (run_i true (c12_cfg c) init_i ops)
+                          (mrun (c12_cfg c) init_i [] ops (map (proj_mask j) (c12_ops c))) o
+                          (conds (c12_cfg c) init_i ops (span_secs ops)) j)
           (seq 0 (c12_n c)).
